@@ -35,7 +35,7 @@ PROPS = {
         "scenarios": [
             {"name": "alias-res", "quick": 30000, "thorough": 3000000, "thorough_time": 200, "extra": ["-sim.only=message-changed,read-changed-store,caller-mutation-visible"]},
             {"name": "alias-race", "quick": 20000, "thorough": 1000000, "thorough_time": 80, "extra": ["-sim.only=message-changed,read-changed-store,caller-mutation-visible"]},
-            {"name": "alias-models", "quick": 40000, "thorough": 3000000, "thorough_time": 300, "extra": ["-sim.only=message-changed,read-changed-store,caller-mutation-visible"]},
+            {"name": "alias-models", "quick": 70000, "thorough": 3000000, "thorough_time": 300, "extra": ["-sim.only=message-changed,read-changed-store,caller-mutation-visible"]},
             {"name": "alias-tween", "quick": 8000, "thorough": 100000, "thorough_time": 30, "extra": ["-sim.only=caller-mutation-visible"]},
         ],
         "require_hits": ["caller-mutate"],
@@ -224,7 +224,7 @@ PROPS = {
             {"name": "lin-delta", "quick": 10000, "thorough": 500000, "thorough_time": 40},
             {"name": "lin-waste", "quick": 4000, "thorough": 100000, "thorough_time": 40},
             {"name": "lin-meta", "quick": 20000, "thorough": 1000000, "thorough_time": 60},
-            {"name": "lin-elec", "quick": 20000, "thorough": 1000000, "thorough_time": 60, "extra": ["-sim.only=clear-active,delete-absent,deadlock,caller-stuck,panic,internal-panic"]},
+            {"name": "lin-elec", "quick": 20000, "thorough": 1000000, "thorough_time": 60, "extra": ["-sim.only=clear-active,delete-absent,active-mode-missing,two-normal-modes,active-mode-deleted,deadlock,caller-stuck,panic,internal-panic"]},
             {"name": "lin-servers", "quick": 20000, "thorough": 1000000, "thorough_time": 80},
         ],
         "require_hits": ["resource.gau.commit", "collection.delete.commit", "value.publish", "collection.publish"],
